@@ -19,7 +19,8 @@ var workerOps = map[string]func(args []string) string{}
 func runWorker() {
 	sc := bufio.NewScanner(os.Stdin)
 	sc.Buffer(make([]byte, 1<<20), 1<<28)
-	w := bufio.NewWriter(os.Stdout)
+	// the protocol moves to a private descriptor; fds 1 and 2 go to a scratch file that is measured (C15)
+	w := bufio.NewWriter(redirectStdio())
 	for sc.Scan() {
 		f := strings.Fields(sc.Text())
 		res := "bad-op"
